@@ -43,6 +43,7 @@ ASSUMPTIONS = [
 ]
 FLOORS = {"torus_length": 1000, "torus_vector": 1000, "ldf_walk": 1000,
           "mesh": 500, "hexagon_ring": 5, "hexagon_abandoned_search": 5,
+          "large_torus_pair": 3000,
           "links": 6}
 SHARDS = {"quick": 16, "thorough": 64}
 ANCHORS = [
@@ -60,7 +61,8 @@ VEC = [(1, 0), (1, 1), (0, 1), (-1, 0), (-1, -1), (0, -1)]  # link 0..5
 def plan(tier):
     n = QUICK_MAX if tier == "quick" else THOROUGH_MAX
     return [("torus", n * n), ("mesh", 4 if tier == "quick" else 16),
-            ("hexagon", 26 if tier == "quick" else 50), ("links", 1)]
+            ("hexagon", 26 if tier == "quick" else 50), ("links", 1),
+            ("large", 24 if tier == "quick" else 400)]
 
 
 def gen(cls, idx, rng, tier):
@@ -73,6 +75,13 @@ def gen(cls, idx, rng, tier):
         return dict(kind="mesh", r=r, part=idx,
                     parts=4 if tier == "quick" else 16,
                     far=0 if tier == "quick" else 1250,
+                    seed=rng.randrange(1 << 30))
+    if cls == "large":
+        return dict(kind="large", w=rng.choice([rng.randint(49, 300),
+                                                rng.randint(300, 5000), 1, 2,
+                                                255, 256, 65536]),
+                    h=rng.choice([rng.randint(49, 300),
+                                  rng.randint(300, 5000), 3, 256, 65535]),
                     seed=rng.randrange(1 << 30))
     if cls == "hexagon":
         return dict(kind="hexagon", r=idx // 2, abandon=idx % 2,
@@ -132,6 +141,8 @@ def run(case, ctx):
         return run_mesh(case, ctx, g, ru, Links)
     if kind == "hexagon":
         return run_hexagon(case, ctx, g)
+    if kind == "large":
+        return run_large(case, ctx, g)
     return run_links(case, ctx, Links)
 
 
@@ -170,10 +181,57 @@ def walk_ldf(ctx, ru, Links, v, start, w, h, dst, where):
           "runs %r for vector %r" % (runs, v), **where)
 
 
+def torus_formula(x, y, w, h):
+    """closed form: the best of the nine nearest images of the destination
+    (cross-checked against the breadth-first search on every exhaustively
+    enumerated torus below)"""
+    return min(hexdist(x + i * w, y + j * h) for i in (-1, 0, 1)
+               for j in (-1, 0, 1))
+
+
+def run_large(case, ctx, g):
+    """tori far too large to search: sampled pairs against the closed form"""
+    w, h = case["w"], case["h"]
+    rng = random.Random(case["seed"])
+    for _ in range(300):
+        sx, sy = rng.randrange(w), rng.randrange(h)
+        if rng.random() < .5:
+            # destinations around the half-way lines, where wrapping flips
+            x = (w // 2 + rng.randint(-2, 2)) % w
+            y = (h // 2 + rng.randint(-2, 2)) % h
+            if rng.random() < .5:
+                x = rng.randrange(w)
+        else:
+            x, y = rng.randrange(w), rng.randrange(h)
+        z = rng.choice([0, 0, 7, -3])
+        src = (sx + z, sy + z, z)
+        dst2d = ((sx + x) % w, (sy + y) % h)
+        dst = (dst2d[0], dst2d[1], 0)
+        dist = torus_formula(x, y, w, h)
+        where = dict(w=w, h=h, src=src, dst=dst, formula=dist)
+        L = g.shortest_torus_path_length(src, dst, w, h)
+        ctx.hit("large_torus_pair")
+        check(L == dist, "torus-length", "got %r want %d" % (L, dist),
+              **where)
+        random.seed(case["seed"] + _)
+        v = g.shortest_torus_path(src, dst, w, h)
+        hops = abs(v[0]) + abs(v[1]) + abs(v[2])
+        check(hops == dist, "torus-vector-length",
+              "vector %r has %d hops, distance %d" % (v, hops, dist), **where)
+        check(((sx + v[0] - v[2]) % w, (sy + v[1] - v[2]) % h) == dst2d,
+              "torus-vector-destination", "vector %r" % (v,), **where)
+    ctx.mark_nontrivial()
+    return "ok"
+
+
 def run_torus(case, ctx, g, Links, ru):
     w, h = case["w"], case["h"]
     d = bfs_torus(w, h)
     check(len(d) == w * h, "oracle", "bfs incomplete")
+    for (x_, y_), dist_ in d.items():
+        check(torus_formula(x_, y_, w, h) == dist_, "oracle",
+              "closed form %d != bfs %d at %r on %dx%d" %
+              (torus_formula(x_, y_, w, h), dist_, (x_, y_), w, h))
     wrap_shorter = 0
     sources = [(0, 0), (w // 2, h - 1)]
     for (x, y), dist in sorted(d.items()):
